@@ -11,6 +11,8 @@ package checks
 
 import (
 	"context"
+	"crypto/sha256"
+	"encoding/hex"
 	"encoding/json"
 	"fmt"
 	"math/big"
@@ -343,7 +345,9 @@ type c27Result struct {
 	intern   string
 	evals    int
 	sample   map[string]any
-	lookedUp bool // a lookup happened since the store was (re)opened
+	lookedUp bool   // a lookup happened since the store was (re)opened
+	stored   string // digest of what the bbolt file really holds (part of the state key: two histories that agree in the
+	// reference map but not in the file are different states)
 }
 
 // c27Run replays prefix+op on a fresh bbolt file and judges the state after the last op.
@@ -416,6 +420,7 @@ func c27Run(dir string, store *peersync.Store, seq []c27Op) (res c27Result) {
 		ref.apply(o)
 	}
 	res.ref = ref
+	res.stored = c27Dump(db)
 	last := "initial"
 	if len(seq) > 0 {
 		last = seq[len(seq)-1].Kind
@@ -594,9 +599,9 @@ func TestC27(t *testing.T) {
 		}
 		// a read in between may leave something behind in the process (a cache): states after a lookup are kept apart
 		if r.lookedUp {
-			return r.ref.key() + "|looked-up", true
+			return r.ref.key() + "|" + r.stored + "|looked-up", true
 		}
-		return r.ref.key(), true
+		return r.ref.key() + "|" + r.stored, true
 	}
 	sequences := 0
 	var explInfo []map[string]any
@@ -689,4 +694,23 @@ func TestC27(t *testing.T) {
 		return
 	}
 	finishEnum(t, &rep)
+}
+
+// c27Dump renders every bucket / key / value of the bbolt file (sorted by bbolt itself) and returns its hash.
+func c27Dump(db *bbolt.DB) string {
+	h := sha256.New()
+	_ = db.View(func(tx *bbolt.Tx) error {
+		return tx.ForEach(func(name []byte, b *bbolt.Bucket) error {
+			h.Write(name)
+			h.Write([]byte{0})
+			return b.ForEach(func(k, v []byte) error {
+				h.Write(k)
+				h.Write([]byte{1})
+				h.Write(v)
+				h.Write([]byte{2})
+				return nil
+			})
+		})
+	})
+	return hex.EncodeToString(h.Sum(nil))[:16]
 }
